@@ -330,6 +330,10 @@ type c16Config struct {
 	HasTpl bool      `json:"has_tpl"`
 	Cache  bool      `json:"cache"`
 	Header string    `json:"header,omitempty"` // custom header name, "" = default
+
+	// key stores of other jwt finalizers sharing the key-holder registry, created before / after this one
+	Before []c16Store `json:"before,omitempty"`
+	After  []c16Store `json:"after,omitempty"`
 }
 
 type c16Op struct {
@@ -745,11 +749,27 @@ func c16Create(pki *c16PKI, dir string, c c16Case) (sys *c16Sys, status string) 
 	raw := c16RawConfig(c.Cfg, path)
 
 	reg := keyholder.VerifNewRegistry()
+	cctx := &c16Ctx{w: &watcher.NoopWatcher{}, r: reg, o: c16CertObserver{}}
 
-	fin, err := newJWTFinalizer(&c16Ctx{w: &watcher.NoopWatcher{}, r: reg, o: c16CertObserver{}}, "c16", raw)
+	other := func(tag string, stores []c16Store) {
+		for i, st := range stores {
+			p := filepath.Join(dir, fmt.Sprintf("other-%s-%d.pem", tag, i))
+			pki.render(st).install(p)
+
+			if _, err := newJWTFinalizer(cctx, "other", c16RawConfig(c16Config{}, p)); err != nil {
+				panic("other key holder: " + err.Error())
+			}
+		}
+	}
+
+	other("before", c.Cfg.Before)
+
+	fin, err := newJWTFinalizer(cctx, "c16", raw)
 	if err != nil {
 		return nil, "err"
 	}
+
+	other("after", c.Cfg.After)
 
 	srv := management.VerifNewService(&config.Configuration{}, zerolog.Nop(), reg)
 
@@ -1127,7 +1147,7 @@ func c16CoqVal(kind, val string) string {
 	}
 }
 
-func c16CoqConfig(cfg c16Config) string {
+func (p *c16PKI) coqConfig(cfg c16Config) string {
 	ttl := "None"
 	if cfg.TTL != "" {
 		ttl = "(Some " + vf.CoqZ(int64(c16TTL(cfg))) + ")"
@@ -1140,7 +1160,8 @@ func c16CoqConfig(cfg c16Config) string {
 		}) + ")"
 	}
 
-	return vf.CoqApp("CF", vf.CoqStr(cfg.KeyID), vf.CoqStr(cfg.Name), ttl, claims, vf.CoqBool(cfg.Cache))
+	return vf.CoqApp("CF", vf.CoqStr(cfg.KeyID), vf.CoqStr(cfg.Name), ttl, claims, vf.CoqBool(cfg.Cache),
+		vf.CoqListOf(cfg.Before, p.coqFile), vf.CoqListOf(cfg.After, p.coqFile))
 }
 
 func (p *c16PKI) coqToken(t *c16Token) string {
@@ -1208,7 +1229,7 @@ func (p *c16PKI) coqCase(c c16Case, o c16Obs) string {
 
 	created := map[string]string{"ok": "(Ok tt)", "err": "Err", "panic": "Panic"}[o.Created]
 
-	return vf.CoqApp("CS", c16CoqConfig(c.Cfg), p.coqFile(c.Store), vf.CoqList(ops), vf.CoqList(times), created, vf.CoqList(obs))
+	return vf.CoqApp("CS", p.coqConfig(c.Cfg), p.coqFile(c.Store), vf.CoqList(ops), vf.CoqList(times), created, vf.CoqList(obs))
 }
 
 // ---------------------------------------------------------------- generator
@@ -1217,7 +1238,7 @@ var (
 	c16Subjects = []string{"alice", "bob", "carol d", "u-42"}
 	c16Reserved = []string{"sub", "iss", "iat", "nbf", "exp", "jti"}
 	c16Others   = []string{"aud", "scope", "email", "Sub", "SUB", "iss ", "groups", "x", "jt", "ſub", "typ", "kid"}
-	c16Kids     = []string{"key1", "key2", "k", "Key1", "sig-2024"}
+	c16Kids     = []string{"key1", "key2", "k", "Key1", "sig-2024", "xkey1", "key10", "key"}
 )
 
 func c16PoolIndex(kind string, size int) []int {
@@ -1433,8 +1454,37 @@ func c16Gen(pki *c16PKI, r *vf.Rand, malformed bool) c16Case {
 	switch {
 	case len(kids) != 0 && r.Chance(50):
 		c.Cfg.KeyID = vf.Pick(r, kids)
+
+		// near misses: a prefix, a suffix, another case of an existing key id (matching must be exact)
+		if k := c.Cfg.KeyID; len(k) > 1 && r.Chance(12) {
+			c.Cfg.KeyID = vf.Pick(r, []string{k[1:], k[:len(k)-1], strings.ToUpper(k), k + "0"})
+		}
 	case malformed && r.Chance(30):
 		c.Cfg.KeyID = "no-such-key"
+	}
+
+	if r.Chance(30) {
+		o := c16Store{Layout: "keys-first"}
+		for i, n := 0, 1+r.Intn(2); i < n; i++ {
+			o.Blocks = append(o.Blocks, c16Block{
+				Key: vf.Pick(r, c16AllSupported()), Enc: "pkcs8",
+				XKid: vf.Pick(r, []string{"", fmt.Sprintf("other-%d", i), vf.Pick(r, c16Kids)}),
+			})
+		}
+
+		if len(o.Blocks) == 2 && o.Blocks[0].XKid == o.Blocks[1].XKid {
+			o.Blocks[1].XKid += "-2"
+		}
+
+		if len(o.Blocks) == 2 && o.Blocks[0].Key == o.Blocks[1].Key {
+			o.Blocks = o.Blocks[:1]
+		}
+
+		if r.Bool() {
+			c.Cfg.Before = []c16Store{o}
+		} else {
+			c.Cfg.After = []c16Store{o}
+		}
 	}
 
 	if r.Chance(50) {
@@ -1547,6 +1597,23 @@ func c16Corpus() []c16Case {
 			}},
 			Ops: []c16Op{{Kind: "exec", Sub: "alice"}, {Kind: "jwks"}},
 		},
+		// the key id must match exactly: an earlier entry whose id merely ends with / starts with the configured one
+		{
+			Cfg: c16Config{KeyID: "key1", TTL: "2s"},
+			Store: c16Store{Layout: "keys-first", Blocks: []c16Block{
+				{Key: ec[0], XKid: "xkey1", Enc: "pkcs8"}, {Key: rs[0], XKid: "key10", Enc: "trad"}, {Key: ec[1], XKid: "key1", Enc: "pkcs8"},
+			}},
+			Ops: []c16Op{{Kind: "exec", Sub: "alice"}, {Kind: "jwks"}},
+		},
+		// other key holders before and after: the endpoint serves all of them, in registration order
+		{
+			Cfg: c16Config{
+				KeyID: "key1", TTL: "2s",
+				Before: []c16Store{one(rs[1], "other-before")}, After: []c16Store{one(ec[0], "key1")},
+			},
+			Store: one(ec[1], "key1"),
+			Ops:   []c16Op{{Kind: "jwks"}, {Kind: "exec", Sub: "alice"}, {Kind: "reload", Store: st(one(rs[2], "key1"))}, {Kind: "exec", Sub: "alice"}, {Kind: "jwks"}},
+		},
 		// unsupported key size among the entries: panic in Entry.JWK (C19-F2)
 		{
 			Cfg:   c16Config{KeyID: "ok"},
@@ -1620,6 +1687,10 @@ func c16Tags(c c16Case, o c16Obs) ([]string, bool) {
 
 	if c.Cfg.Cache {
 		tags = append(tags, "cache:on")
+	}
+
+	if len(c.Cfg.Before)+len(c.Cfg.After) != 0 {
+		tags = append(tags, "other-holders")
 	}
 
 	if c.Store.Bad != "" {
